@@ -4,7 +4,9 @@
      - same verdict per order (built / rejection code),
      - same interning (node count; which statement every statement was merged into),
      - the implementation's node order is accepted by [valid_ranking] on the model's rank edges,
-     - the compiled edge list equals the model's emitted edges (as a multiset).
+     - the compiled edge list equals the model's emitted edges (as a multiset),
+     - the active-input list of every compiled native node is the one of the statement that CREATED
+       the node (the passive marker of later, merged statements is lost: first statement wins).
    Output: [[1; orders; orders whose order equals the model's own Kahn order]] or [[0; k; reason]]. *)
 Require Import Base Rank Intern.
 From Coq Require Import Arith.
@@ -58,7 +60,8 @@ Definition decode_line (p : list stmt) (l : line) : list stmt :=
                 nd_push := kind =? 3 |} [] :: p
   | 3 :: _ :: _ :: rank :: ntp :: rest =>
       match parse_src 64 (skipn (zn ntp) rest) with
-      | Some (s, _) => add_input {| in_src := s; in_tpath := map zn (firstn (zn ntp) rest); in_rank := negb (rank =? 0) |} p
+      | Some (s, _) => add_input {| in_src := s; in_tpath := map zn (firstn (zn ntp) rest);
+                                   in_rank := Z.odd rank; in_passive := 2 <=? rank |} p
       | None => p
       end
   | 4 :: _ => StPlace :: p
@@ -129,6 +132,20 @@ Definition creator_inst (w : wst) (c : Z) : option nat :=
        | None => None
        end.
 
+(* every reported active list [creator; slots...] equals the model's for that instance *)
+Definition active_ok (w : wst) (l : line) : bool :=
+  match l with
+  | c :: slots =>
+      match creator_inst w c with
+      | Some i => match nth_error (w_insts w) i with
+                  | Some it => list_eqb Nat.eqb (map zn slots) (active_slots it)
+                  | None => false
+                  end
+      | None => false
+      end
+  | [] => false
+  end.
+
 Definition model_reps (w : wst) (n : nat) : list Z :=
   map (fun l => match alookup l (w_env w) with
                 | Some i => match nth_error (w_insts w) i with Some it => Z.of_nat (i_label it) | None => -1 end
@@ -157,7 +174,8 @@ Definition check_order (prog : list stmt) (order : list nat) (impl : wire) (k : 
                   | None => (7, false)
                   | Some ies =>
                       if multiset_eqb (map (fun e => match e with (s, sp, t, tp) => (pos s io, sp, pos t io, tp) end) es) ies
-                      then (0, list_eqb Nat.eqb io o) else (7, false)
+                      then (if forallb (active_ok w) (obs impl 27 k) then (0, list_eqb Nat.eqb io o) else (8, false))
+                      else (7, false)
                   end
             end
         | _ => (2, false)
